@@ -245,7 +245,7 @@ def compact(sequence: ArrayT, key: object = None) -> list[object]:
     """Return a copy of _sequence_ with any nil values removed."""
     if key is not None:
         try:
-            return [itm for itm in sequence if itm[key] is not None]
+            return [itm for itm in sequence if _property(itm, key) is not None]
         except TypeError as err:
             raise FilterArgumentError(
                 f"can't read property '{key}'", token=None
@@ -267,6 +267,14 @@ def sum_(sequence: ArrayT, key: object = None) -> Union[float, int, Decimal]:
     if isinstance(rv, Decimal):
         return float(rv)
     return rv
+
+
+def _property(obj: Any, key: object) -> object:
+    """Helper for the compact filter. A missing property is the same as a nil one."""
+    try:
+        return obj[key]
+    except (KeyError, IndexError):
+        return None
 
 
 def _str_if_not(val: object) -> str:
